@@ -20,6 +20,13 @@ RULE = ('spec trees of depth <= 3 (quick) / 4 (thorough) mixing tuple, Pipe, dic
         'type key, the values reading the bound name (bare or under Coalesce(default=)); 4% of the cases are Match dicts '
         'with literal keys, a binding key and an Optional(k, default=D) whose default D reads the bound name (the value '
         'D yields is compared with D evaluated in argument position at the Match\'s own scope under the lexical model); '
+        '12% of the cases are chains (tuple / Pipe) in which a binder step (S(k=..), A.k, A.globals.k, Let, Spec(scope=..), '
+        'S(v=Vars()) + A.v.k, a Ref definition) is directly followed by 1-3 steps evaluating to SKIP (Val(SKIP), a callable '
+        'returning SKIP, Coalesce/Or with default=SKIP, Switch -> Val(SKIP), Spec(Val(SKIP)) with or without a scope= binding '
+        'of its own, Auto(Val(SKIP)), a Ref definition yielding SKIP) or by a STOP, then by readers of the bound name (bare, '
+        'in a dict, in a nested chain, under Coalesce(default=), as call arguments), optionally after an earlier binding of '
+        'the same name in the chain, a second binder, a pass-through step between the skips, SKIP as the last step; the '
+        'enumerated stream has every SKIP-yielding shape and every such placement per binder kind; '
         'every call is made twice. Observed: result (hence what '
         'every reader saw), ordered call log, the caller mapping before/after, equality of the two calls. non-trivial = '
         'at least one binder and one reader; distinct = distinct (target, spec, scope)')
@@ -38,7 +45,11 @@ MANIFEST = dict(
           "the ChainMap-of-frames scope glom uses satisfies the 24 lexical-scoping laws (child sees "
           "parent, a write hits the head frame only and shadows, chain_child forwards the finished step's bindings with the "
           "owner's mode); dict/list/Coalesce/And/Or/Fill containers call the evaluator at their own scope only (sibling "
-          "isolation, for every evaluator); chains forward bindings; shadowing, nearest Ref, Spec(scope=) subtree, per-call "
+          "isolation, for every evaluator); chains forward bindings, also across skipped steps (c07_chain_skip_is_link: a step "
+          "evaluating to SKIP hands its finished scope on exactly like a step evaluating to a value, only the target of the "
+          "rest differs; c07_chain_forward_skip: once a link finished in a scope showing k -> x, every later step of the chain "
+          "is evaluated at a scope showing k -> x as long as the steps in between leave k alone, whatever they return; "
+          "c07_skip_then_read: binder, any number of skipped steps, S.k yields the bound value); shadowing, nearest Ref, Spec(scope=) subtree, per-call "
           "fresh globals. The scope-generic interpreter model is tied to /repo by differential execution of (target, spec, "
           "scope) cases (result, call log, caller mapping before/after, two consecutive calls) through the compiled Lean "
           "driver."),
